@@ -10,21 +10,29 @@ RULE = ('Hypothesis draws (mode valid) a domain (2-4 attrs, sizes 1-4), 1-4 meas
         'or omitted, marginal oracle in {convex, approx, pairwise}, iters in {1,2,3,5,20,100,300}, inner_iters in {1,3}: '
         'estimate must return; every measured clique table finite, >=0, sums to model.total; loss recomputed from those '
         'tables <= loss of uniform tables; convex oracle: primal feasibility < 1. (mode exact) pairwise-disjoint distinct '
-        'measured cliques: after iteration escalation (1000, 4000) the loss must reach the certified simplex-QP optimum '
+        'measured cliques: after iteration escalation (1000, 4000, 16000) the loss must reach the certified simplex-QP optimum '
         '(plateau rule as C03). Non-trivial = overlapping cliques (valid) / >=2 disjoint cliques with non-identity Q or '
         'unequal noise (exact); distinct by sha1.')
-BUDGET = {'quick': 480, 'thorough': 9600}
+BUDGET = {'quick': 400, 'thorough': 9600}
 TIME = {'quick': 110, 'thorough': 1700}
 KINDS = ['identity', 'identity', 'sparse_eye', 'dense', 'prefix', 'sparse_prefix', 'scaled', 'total']
 
 
 @st.composite
 def cases(draw, tier='quick'):
-    mode = draw(st.sampled_from(['valid', 'valid', 'valid', 'exact']))
-    dom = draw(gen.domains(2, 4, 1 if mode == 'valid' else 2, 4, cap=256))
+    mode = draw(st.sampled_from(['valid', 'valid', 'valid', 'valid', 'nested3', 'exact']))
+    dom = draw(gen.domains(2, 4, 1 if mode == 'valid' else 2, 4, cap=256)) if mode != 'nested3' else draw(gen.domains(5, 5, 2, 3, cap=243))
     attrs, shape = dom['attrs'], dom['shape']
     if mode == 'valid':
-        meas = draw(inf.measurement_specs(attrs, shape, 1, 4, max_proj=2, max_cells=16, kinds=KINDS))
+        meas = draw(inf.measurement_specs(attrs, shape, 1, 4, max_proj=draw(st.sampled_from([2, 3])), max_cells=27, kinds=KINDS))
+    elif mode == 'nested3':
+        # region graph with three levels where a region has two parents without a common ancestor: (a,b,d),(a,b,e),(b,c)
+        a, b, c, d, e = list(draw(st.permutations(attrs)))
+        meas = []
+        for proj in ([a, b, d], [a, b, e], [b, c]):
+            proj = list(draw(st.permutations(proj)))
+            meas.append({'proj': proj, 'q': {'kind': 'identity', 'rows': 1, 'seed': 0, 'c': 1.0}, 'noise': draw(st.sampled_from([1.0, 5.0, 10.0])),
+                         'yseed': draw(st.integers(0, 2**31 - 1)), 'noise_mult': draw(st.sampled_from([1.0, 3.0]))})
     else:
         perm = list(draw(st.permutations(attrs)))
         meas, i = [], 0
@@ -36,8 +44,12 @@ def cases(draw, tier='quick'):
             for _ in range(draw(st.integers(1, 2))):
                 meas.append({'proj': proj, 'q': draw(inf.q_specs(KINDS)), 'noise': draw(st.sampled_from([1.0, 0.3, 3.0])),
                              'yseed': draw(st.integers(0, 2**31 - 1)), 'noise_mult': draw(st.sampled_from([0.0, 1.0, 3.0]))})
+    if mode == 'nested3':
+        return {'mode': 'valid', 'domain': dom, 'meas': meas, 'data_seed': draw(st.integers(0, 2**31 - 1)),
+                'total': draw(st.sampled_from([100.0, 1000.0])), 'true_total': 1000.0, 'oracle': 'convex',
+                'iters': draw(st.sampled_from([20, 100, 300])), 'inner_iters': draw(st.sampled_from([1, 3]))}
     return {'mode': mode, 'domain': dom, 'meas': meas, 'data_seed': draw(st.integers(0, 2**31 - 1)),
-            'total': draw(st.sampled_from([1.0, 10, 100.0, None])), 'true_total': draw(st.sampled_from([1.0, 20.0, 500.0])),
+            'total': draw(st.sampled_from([1.0, 10, 100.0, 1000.0, None])) if mode == 'valid' else draw(st.sampled_from([1.0, 10, 100.0, None])), 'true_total': draw(st.sampled_from([1.0, 20.0, 500.0])),
             'oracle': draw(st.sampled_from(['convex', 'approx', 'pairwise'])),
             'iters': draw(st.sampled_from([1, 2, 3, 5, 20, 100, 300])), 'inner_iters': draw(st.sampled_from([1, 3]))}
 
@@ -100,13 +112,26 @@ def run_case(case):
             pf = model.primal_feasibility(model.marginals)
             if not pf < 1.0:
                 return out.fail('infeasible', 'primal_feasibility of the returned marginals is %r (the estimator enforces < 1.0)' % pf)
+            # independent view of the same guarantee: the estimator enforces an average L1 disagreement < 1 over its
+            # parent->child edges, which are a subset of the cover pairs of the region poset and connect every region to
+            # all its super-regions; so no cover pair can disagree by more than the number of cover pairs.
+            keys = list(model.marginals.keys())
+            cover = [(p_, r_) for p_ in keys for r_ in keys if set(r_) < set(p_) and not any(set(r_) < set(m_) < set(p_) for m_ in keys)]
+            worst, wp = 0.0, None
+            for p_, r_ in cover:
+                fp, fr = model.marginals[p_], model.marginals[r_]
+                d = float(np.abs(oracles.marg(np.asarray(fp.values, float), list(fp.domain.attrs), list(fr.domain.attrs)) - np.asarray(fr.values, float)).sum())
+                if d > worst: worst, wp = d, (p_, r_)
+            if cover and worst > float(len(cover)) + 1e-9:
+                return out.fail('inconsistent_tables', 'tables %s and %s disagree by %.4g in L1 (total %g); the enforced feasibility tolerance allows at most %d' % (wp[0], wp[1], worst, tot, len(cover)))
+            if len(cover) >= 3: out.classes.append('cover_pairs>=3')
         out.nontrivial = overlap
         if overlap: out.classes.append('overlapping')
         return out
     # ---- exactness on disjoint cliques
     A, b = inf.stacked(meas, attrs, shape)
     excess = []
-    for T in (1000, 4000):
+    for T in (1000, 4000, 16000):
         eng = mbi.LocalInference(domain, iters=T, marginal_oracle=case['oracle'], inner_iters=case['inner_iters'])
         model = eng.estimate(ms, total=case['total'])
         tot = float(model.total)
@@ -129,7 +154,7 @@ def run_case(case):
         if e <= 1e-3: break
     if excess[-1] > 1e-3:
         if len(excess) >= 2 and excess[-1] > excess[-2] / 2:
-            return out.fail('plateau_above_optimum', 'oracle %s on disjoint cliques %s: relative excess over the certified optimum %s at iterations [1000, 4000]' % (
+            return out.fail('plateau_above_optimum', 'oracle %s on disjoint cliques %s: relative excess over the certified optimum %s at iterations [1000, 4000, 16000]' % (
                 case['oracle'], [tuple(m.proj) for m in meas], ['%.3g' % x for x in excess]))
         out.inconclusive = True
     uniq = set(tuple(sorted(p)) for p in projs)
